@@ -87,9 +87,9 @@ PROPS.update({
             "level_text": ("One frame theorem per modifier over the pure model `invoke` (Filter, Retain, FilterArgs/Parts, Prefix incl. the law p+x -> p + completion of x and the incompatible case, Suffix, Style, Tag, Usage with outer-overrides-inner, NoSpace, Suppress, Unless, Shift, Context edits, ActionMultiPartsN frame and parts, UniqueList never re-offers a part); MultiParts dropping the inner meta is a decided counterexample and a listed finding. "
                            "The model is bound to the library by exact comparison of every invoked result on random expression trees x Contexts; the frame conditions of the top-level modifier are additionally evaluated on the real result against the real result of the inner expression."),
             "level_note": ALG_NOTE},
-    "C08": {"modules": ["Carapace.Props.C08"], "ops": [("history", {"quick": 6000, "thorough": 300000})], "rule": "random tables of 1-3 ActionExpr (later entries built from earlier Go values by Prefix/Batch/NoSpace/MultiParts/Usage, stored actions, messages with format arguments) x 2-6 invocations interleaved over two Contexts; non-trivial = at least two steps; distinct = distinct input digest",
+    "C08": {"modules": ["Carapace.Props.C08", "Carapace.Props.C08Effects"], "ops": [("history", {"quick": 6000, "thorough": 300000})], "rule": "random tables of 1-3 ActionExpr (later entries built from earlier Go values by Prefix/Batch/NoSpace/MultiParts/Usage, stored actions, messages with format arguments) x 2-6 invocations interleaved over two Contexts; non-trivial = at least two steps; distinct = distinct input digest",
             "assumptions": ALG_ASSUME, "claimed": True, "engine": "alg", "category": "translation_validation",
-            "level_text": ("Translation validation, not a proof of the Go code: in the pure Lean model `invoke` an Action is a value, so repeatability holds by construction (`C08_history`, `C08_repeatable`) and Context edits are local (`C08_ctx_local_sibling`, `C08_ctx_local_later`, `C08_setenv_visible_beneath`). What decides the property is the history run on the real library: the same Go values are kept alive, invoked repeatedly and interleaved with the actions built from them, and every step must equal (i) the same step repeated, (ii) what the same expression yields when built from scratch with fresh Go values, and the caller's Context must be unchanged afterwards; any trace an invocation leaves shows as a differing step. The pure model is compared too, but a difference between model and library alone is not counted against C08. The store model of DESIGN.md C08 layer (b) is not built."),
+            "level_text": ("`C08_global_effects_covered` (C08Effects.lean): the statements of the library that change the process (os.Setenv / Unsetenv / Clearenv / Chdir) or assign to a package-level variable, regenerated from /repo on every run, are the nine reviewed ones - all at package initialisation or once on the entry path, none on the invocation path (`C08_no_effect_on_invocation_path`). " + "Translation validation, not a proof of the Go code: in the pure Lean model `invoke` an Action is a value, so repeatability holds by construction (`C08_history`, `C08_repeatable`) and Context edits are local (`C08_ctx_local_sibling`, `C08_ctx_local_later`, `C08_setenv_visible_beneath`). What decides the property is the history run on the real library: the same Go values are kept alive, invoked repeatedly and interleaved with the actions built from them, and every step must equal (i) the same step repeated, (ii) what the same expression yields when built from scratch with fresh Go values, and the caller's Context must be unchanged afterwards; any trace an invocation leaves shows as a differing step. The pure model is compared too, but a difference between model and library alone is not counted against C08. The store model of DESIGN.md C08 layer (b) is not built."),
             "level_note": ALG_NOTE},
     "C10": {"modules": ["Carapace.Props.C10", "Carapace.Props.C10Ranges"], "ops": [("repeat", {"quick": 1500, "thorough": 60000}), ("entry", {"quick": 1500, "thorough": 40000})], "rule": "expressions that produce equal displays / equal values through Batch, MultiParts, Suffix, plus random trees; each formatted 30 times in-process (Go randomises every map iteration) for one of 7 formats; non-trivial = every case; distinct = distinct input digest",
             "assumptions": ALG_ASSUME + ["goroutine scheduling and map iteration seeds are only sampled (30 repetitions per case); fresh-process repetition is not performed in the quick tier"],
